@@ -3,6 +3,7 @@
   handshake model: a connection = honest handshake under the first command's policy, then the
   dispatch loop over follow-on commands.
     server pol=<cmd:A/E/I;...> perms=<cmd:P|P;...> raw=<cmd,cmd> authz=<none|P=u|u|*;...>
+    reconfig pol= perms= raw= authz=      (same fields; the cached session is kept)
     conn cauth= cenc= cmethods= cciphers= user= first=<cmd> follow=<c,c|-> keep=<c,c|->
     reconn resumed=<0|1> cauth= cenc= cmethods= cciphers= user= first=<cmd> follow= keep=
     raw cmd=<cmd>
@@ -71,7 +72,7 @@ def doConn (st : St) (toks : List String) (resumed : Bool) : St × String :=
 def step (st : St) (toks : List String) : St × String :=
   let g := kv toks
   match toks with
-  | "server" :: _ =>
+  | "server" :: _ | "reconfig" :: _ =>
     match g "pol", g "perms", g "raw", g "authz" with
     | some pol, some perms, some raw, some authz =>
       let pols : List (Nat × Policy) := (pol.splitOn ";").filterMap (fun e =>
@@ -91,7 +92,9 @@ def step (st : St) (toks : List String) : St × String :=
           match e.splitOn "=" with
           | [p, us] => some (p, us.splitOn "|")
           | _ => none))
-      ({ pol := pols, handlers := hs, authz := az, sess := none }, "ok")
+      -- `reconfig`: the server's policy function and authorizer change between connections; the
+      -- cached session survives
+      ({ pol := pols, handlers := hs, authz := az, sess := if toks.head? == some "reconfig" then st.sess else none }, "ok")
     | _, _, _, _ => (st, "bad-op")
   | "conn" :: _ => doConn st toks false
   | "reconn" :: _ => doConn st toks ((g "resumed") == some "1")
